@@ -108,7 +108,7 @@ def job_interp(item):
         return out
     def wit(ex, extra):
         acc = []; SY.lazy_null_constraints(ex.doc, acc, 'Bool')
-        sat, m = eng.check(ex.pc + acc + extra)
+        sat, m = SY.check_pinned(eng, ex.pc, acc, extra)
         if not sat: return None, None
         doc = SY.tagged(ex, ex.doc, m, 'Bool')
         if kind == 'index': e = f'[{mval(m, ex.u_idx)}]'
